@@ -19,7 +19,7 @@ def run(tier):
         "first statement is an entry node, every consecutive pair is an edge, the last statement has an edge to the exit (-1)",
         "trace convention (DESIGN section 10): a loop statement's id is emitted at each test; parameter declarations are statements",
         "Python: the C01 family (all control-flow skeletons up to the size bound, nested-loop placements, call/class/data forms); "
-        "all seven frontends: the 31 core programs of C02 (counted for with init/condition/update, while, break/continue, calls)",
+        "all seven frontends: the core programs of C02 (counted for with init/condition/update, while, break/continue, else-if chains, conditional expressions, calls; quick tier: the branching ones in the six non-Python frontends)",
         "lian's CFG builder itself runs concretely; the explored variable is the program input",
     ]
     r.outside += ["goto/label, yield, implicit exceptions, try/except, switch/match (not in the family yet)", 
@@ -46,6 +46,10 @@ def run(tier):
     # while with condition_prebody, C-style break/continue)
     from vlib.checks import c02
     core = c02.programs()
+    if tier == "quick":
+        # straight-line renderings have a one-path graph, and the Python renderings repeat the first leg: thorough tier only
+        core = [p for p in core if p["lang"] != "python" and any(k in p["src"] for k in ("if ", "while ", "for "))]
+    r.extra["seven_frontend_programs"] = len(core)
     tcommon.drive(r, core, len(core), "check_cfg", None, "trace is a CFG path for all arguments, seven frontends", "semantic",
                   TABLES, tier, chunk=14, langs=c02.LANG_ARG, key="_seven_frontends")
     return r
